@@ -9,13 +9,24 @@ from . import payload
 
 
 class AsyncSocket(base_socket.BaseSocket):
+    def _queue_end_marker(self):
+        # the marker tells readers of the queue that nothing more will come.
+        # It does not count as pending work: close(wait=True) waits in
+        # queue.join() for the packets to be taken, not for the marker
+        self.queue.put_nowait(None)
+        self.queue.task_done()
+
     async def poll(self):
         """Wait for packets to send to the client."""
         try:
             packets = [await asyncio.wait_for(
                 self.queue.get(),
                 self.server.ping_interval + self.server.ping_timeout)]
-            self.queue.task_done()
+            if packets[0] is not None:
+                # (the end-of-stream marker is not work that
+                # close(wait=True) waits for: whoever queues it reports it
+                # done at once)
+                self.queue.task_done()
         except (asyncio.TimeoutError, asyncio.CancelledError):
             raise exceptions.QueueEmpty()
         if packets == [None]:
@@ -23,10 +34,10 @@ class AsyncSocket(base_socket.BaseSocket):
         while True:
             try:
                 pkt = self.queue.get_nowait()
-                self.queue.task_done()
                 if pkt is None:
-                    self.queue.put_nowait(None)
+                    self._queue_end_marker()
                     break
+                self.queue.task_done()
                 packets.append(pkt)
             except asyncio.QueueEmpty:
                 break
@@ -129,7 +140,7 @@ class AsyncSocket(base_socket.BaseSocket):
             if not abort:
                 await self.send(packet.Packet(packet.CLOSE))
             self.closed = True
-            await self.queue.put(None)
+            self._queue_end_marker()
             if wait:
                 await self.queue.join()
 
@@ -270,7 +281,7 @@ class AsyncSocket(base_socket.BaseSocket):
                 # the connection properly
                 self.server.logger.exception('Unknown receive error')
 
-        await self.queue.put(None)  # unlock the writer task so it can exit
+        self._queue_end_marker()  # unlock the writer task so it can exit
         await asyncio.wait_for(writer_task, timeout=None)
         await self.close(wait=False, abort=True,
                          reason=self.server.reason.TRANSPORT_CLOSE)
